@@ -842,6 +842,11 @@ package compose
 //@ func parallelRunToolCall$1
 //@   props C13 C17
 //@   nopanic
+//@   ghost recovered bool = false
+//@   ghost reported bool = false
+//@   after call recover: ghost recovered = result != nil
+//@   at call safe.NewPanicErr: ghost reported = true
+//@   ensures[panic_becomes_the_task_error] @C13,C17 recovered ==> reported
 //@   requires t != nil && run != nil
 //@   modifies t.err, region("GHOST|")
 
@@ -1203,7 +1208,7 @@ package compose
 //@ spec noneBefore(r *runner, ts []*task) bool = forall(i int :: 0 <= i && i < len(ts) ==> !inList(ts[i].nodeKey, r.interruptBeforeNodes))
 
 //@ func (*runner).handleInterruptWithSubGraphAndRerunNodes
-//@   props C05 C06
+//@   props C05 C06 C11
 //@   skip pre safe frame
 //@   paths 1
 //@   note partial: only the assertions below and the postcondition are checked (callee preconditions, panic-freedom and the write set are not: the write set is trusted by run)
@@ -1214,6 +1219,7 @@ package compose
 //@   ghost saved int = 0
 //@   at call cm.updateValues: ghost valsFolded++
 //@   at call cm.updateDependencies: ghost depsFolded++
+//@   at call r.checkPointer.convertCheckPoint: assert[skip_pre_handler_flags_saved] @C05,C11 arg0 != nil && arg0.SkipPreHandler == skipPreHandler
 //@   at call r.checkPointer.convertCheckPoint: assert[finished_siblings_folded_into_the_channels_before_saving] @C05 valsFolded == 1 && depsFolded == 1
 //@   at call r.checkPointer.set: assert[top_level_with_id_only] @C06 !isSubGraph && checkPointID != nil
 //@   at call r.checkPointer.set: ghost saved++
@@ -1221,10 +1227,10 @@ package compose
 //@   ensures[checkpoint_written_at_most_once] @C06 saved <= 1 && (isSubGraph ==> saved == 0) && (checkPointID == nil ==> saved == 0)
 
 //@ func (*runner).run
-//@   props C01 C05 C06 C10
+//@   props C01 C03 C05 C06 C10
 //@   paths 1
 //@   skip pre safe frame
-//@   uses getHitKey (*runner).resolveInterruptCompletedTasks (*runner).handleInterrupt (*runner).handleInterruptWithSubGraphAndRerunNodes newGraphRunError
+//@   uses getHitKey (*runner).resolveInterruptCompletedTasks (*runner).handleInterrupt (*runner).handleInterruptWithSubGraphAndRerunNodes newGraphRunError (*taskManager).waitAll (*taskManager).wait
 //@   note only the assertions, loop invariants and postconditions of run are checked; the preconditions of its callees, its implicit safety conditions and its write frame are NOT (the function is too large for the generator: 25 exits through a deferred callback literal); callee postconditions are assumed
 //@   requires r != nil && r.checkPointer != nil && ctxOK(ctx)
 //@   ghost supersteps int = 0
@@ -1239,6 +1245,8 @@ package compose
 //@   at call tm.submit: assert[interrupt_before_honoured] @C06 (supersteps == 0 && fromCp) || noneBefore(r, nextTasks)
 //@   at call tm.submit: ghost supersteps++
 //@   at call 1 r.handleInterrupt: assert[initial_before_reported] @C06 forall(i int :: 0 <= i && i < len(nextTasks) && inList(nextTasks[i].nodeKey, r.interruptBeforeNodes) ==> inList(nextTasks[i].nodeKey, hit))
+//@   at call r.handleInterruptWithSubGraphAndRerunNodes: assert[nothing_outstanding_when_interrupting] @C03 tm.num == 0
+//@   at call 2 r.handleInterrupt: assert[nothing_outstanding_when_interrupting_plain] @C03 tm.num == 0
 //@   ghost afterHit bool = false
 //@   after call 1 r.resolveInterruptCompletedTasks: ghost afterHit = len(interruptAfterNodes) > 0
 //@   at call 2 r.handleInterrupt: assert[no_rerun_or_subgraph_interrupt_dropped] @C06 len(interruptRerunNodes) == 0 && len(subGraphInterrupts) == 0
